@@ -20,7 +20,9 @@ var (
 	volumes = []float64{0, 1, 7, 100, 1000, 86400}
 	windows = []rf{{time.Minute, time.Second}, {time.Minute, 30 * time.Second}, {10 * time.Minute, 10 * time.Second}, {time.Hour, time.Minute}, {24 * time.Hour, time.Minute},
 		// windows that do not divide 24 h (the window grid is anchored at Go's zero time, not at the Unix epoch or at midnight)
-		{7 * time.Hour, 10 * time.Minute}, {168 * time.Hour, time.Hour}}
+		{7 * time.Hour, 10 * time.Minute}, {168 * time.Hour, time.Hour},
+		// sub-second ticks (with the standard deviations f, 3f, R/10 ... the bell is narrower than a second)
+		{10 * time.Second, 100 * time.Millisecond}, {3 * time.Second, 250 * time.Millisecond}}
 	weights = [][]float64{nil, {1}, {2}, {0.25}, {1, 2}, {2, 1, 0.5}, {0, 1}, {1, 1, 1, 1, 1, 1, 1}}
 )
 
